@@ -312,11 +312,14 @@ Definition random_fxp (f : nat) (tp : tape) : option (Z * tape) := getrandbits f
 
 (** a, b given as scaled integers (exact multiples of 2^-f); s = copysign(1, b - a) *)
 Definition uniform_fxp (fuel : nat) (a b : Z) (tp : tape) : option (Z * tape) :=
-  let s := if b - a <? 0 then -1 else 1 in
-  match randbelow fuel (Z.abs (a - b)) tp with
-  | None => None
-  | Some (r, tp') => Some (a + r * s, tp')
-  end.
+  let n := Z.abs (a - b) in                              (* n = round(abs(a - b) * 2**f) *)
+  if n =? 0 then Some (a, tp)                            (* if not n: return sectype(a) *)
+  else
+    let s := if b - a <? 0 then -1 else 1 in
+    match randbelow fuel n tp with
+    | None => None
+    | Some (r, tp') => Some (a + r * s, tp')
+    end.
 
 (** fuel that always suffices for the restart loops on a given tape: every restart draws >= 1 bit *)
 Definition fuel_for (tp : tape) : nat := ((length tp + 2) * 70)%nat.
@@ -891,15 +894,164 @@ Proof.
   clearbody q m. split; nia.
 Qed.
 
-(** uniform, non-degenerate interval a < b (scaled integers): a <= N < b *)
-Theorem uniform_within : forall fuel a b tp v tp', bits tp -> a < b ->
-  uniform_fxp fuel a b tp = Some (v, tp') -> a <= v < b.
+(** uniform (scaled integers): a <= N <= b for a <= b (N = a when a = b), and N < b when a < b *)
+Theorem uniform_within : forall fuel a b tp v tp', bits tp -> a <= b ->
+  uniform_fxp fuel a b tp = Some (v, tp') -> a <= v <= b /\ (a < b -> v < b).
 Proof.
   intros fuel a b tp v tp' Htp Hab H. unfold uniform_fxp in H.
+  destruct (Z.abs (a - b) =? 0) eqn:E0.
+  - injection H as <- <-. apply Z.eqb_eq in E0. lia.
+  - apply Z.eqb_neq in E0.
+    destruct (randbelow fuel (Z.abs (a - b)) tp) as [[r tp1]|] eqn:E; [|discriminate]. injection H as <- <-.
+    assert (Hn : 1 <= Z.abs (a - b)) by lia.
+    destruct (randbelow_range _ _ _ _ _ Hn Htp E) as [R _].
+    assert (S : (b - a <? 0) = false) by (apply Z.ltb_ge; lia). rewrite S. lia.
+Qed.
+
+(** the mirrored case b < a: b < N <= a *)
+Theorem uniform_within_rev : forall fuel a b tp v tp', bits tp -> b < a ->
+  uniform_fxp fuel a b tp = Some (v, tp') -> b < v <= a.
+Proof.
+  intros fuel a b tp v tp' Htp Hab H. unfold uniform_fxp in H.
+  destruct (Z.abs (a - b) =? 0) eqn:E0; [apply Z.eqb_eq in E0; lia|].
   destruct (randbelow fuel (Z.abs (a - b)) tp) as [[r tp1]|] eqn:E; [|discriminate]. injection H as <- <-.
   assert (Hn : 1 <= Z.abs (a - b)) by lia.
   destruct (randbelow_range _ _ _ _ _ Hn Htp E) as [R _].
-  assert (S : (b - a <? 0) = false) by (apply Z.ltb_ge; lia). rewrite S. lia.
+  assert (S : (b - a <? 0) = true) by (apply Z.ltb_lt; lia). rewrite S. lia.
+Qed.
+
+(** ** weighted choices: the result is a member of the population *)
+Fixpoint nondecr (p : Z) (l : list Z) : Prop :=
+  match l with [] => True | a :: r => p <= a /\ nondecr a r end.
+
+Lemma diffs_unit : forall r cws p, nondecr p cws ->
+  let h := map (fun a => b2z (r <? a)) cws in
+  let u := vsub (h ++ [1]) (b2z (r <? p) :: h) in
+  bits u /\ zsum u = 1 - b2z (r <? p) /\ length u = S (length cws).
+Proof.
+  intros r. induction cws as [|a cws IH]; intros p Hnd; cbn zeta.
+  - cbn. split; [|split; [|reflexivity]].
+    + constructor; [|constructor]. destruct (r <? p); [left | right]; reflexivity.
+    + destruct (r <? p); reflexivity.
+  - destruct Hnd as [Hpa Hnd]. specialize (IH a Hnd). cbn zeta in IH. destruct IH as (B & S & L).
+    cbn [map app vsub]. split; [|split].
+    + constructor; [|exact B].
+      destruct (r <? p) eqn:E1; destruct (r <? a) eqn:E2; cbn; try (left; reflexivity); try (right; reflexivity).
+      apply Z.ltb_lt in E1. apply Z.ltb_ge in E2. lia.
+    + cbn [zsum fold_right]. fold (zsum (vsub (map (fun a0 => b2z (r <? a0)) cws ++ [1])
+                                           (b2z (r <? a) :: map (fun a0 => b2z (r <? a0)) cws))).
+      rewrite S. lia.
+    + cbn [length]. rewrite L. reflexivity.
+Qed.
+
+Lemma nondecr_removelast : forall l p, nondecr p l -> nondecr p (removelast l).
+Proof.
+  induction l as [|a l IH]; intros p H; [exact I|]. destruct H as [H1 H2].
+  cbn [removelast]. destruct l as [|b l]; [exact I|]. split; [exact H1 | apply IH; exact H2].
+Qed.
+
+Lemma removelast_len : forall (l : list Z), l <> [] -> S (length (removelast l)) = length l.
+Proof.
+  induction l as [|a l IH]; intros H; [congruence|]. cbn [removelast]. destruct l as [|b l]; [reflexivity|].
+  cbn [length]. f_equal. apply IH. discriminate.
+Qed.
+
+Theorem weighted_choice_member : forall fuel cw pop tp v tp', bits tp ->
+  cw <> [] -> length cw = length pop -> nondecr 0 cw -> 1 <= last cw 0 ->
+  weighted_choice fuel cw pop tp = Some (v, tp') -> In v pop /\ bits tp'.
+Proof.
+  intros fuel cw pop tp v tp' Htp Hne Hlen Hnd Hlast H. unfold weighted_choice in H.
+  destruct (randbelow fuel (last cw 0) tp) as [[r tp1]|] eqn:E; [|discriminate]. injection H as <- <-.
+  destruct (randbelow_range _ _ _ _ _ Hlast Htp E) as [R Ht]. split; [|exact Ht].
+  pose proof (diffs_unit r (removelast cw) 0 (nondecr_removelast _ _ Hnd)) as D. cbn zeta in D.
+  assert (E0 : (r <? 0) = false) by (apply Z.ltb_ge; lia). rewrite E0 in D. cbn [b2z] in D.
+  destruct D as (B & S & L). rewrite removelast_len in L by exact Hne.
+  match type of B with bits ?u => assert (U : unitv u) by (split; [exact B | lia]) end.
+  destruct (unitv_onehot _ U) as (j & Lj & Eu). rewrite Eu.
+  rewrite L, Hlen in Lj. rewrite in_prod_comm, in_prod_onehot by exact Lj. apply nth_In. exact Lj.
+Qed.
+
+Lemma repeat_draw_forall : forall {A} (f : tape -> option (A * tape)) (P : A -> Prop),
+  (forall tp a tp', bits tp -> f tp = Some (a, tp') -> P a /\ bits tp') ->
+  forall k tp r tp', bits tp -> repeat_draw f k tp = Some (r, tp') -> Forall P r /\ bits tp'.
+Proof.
+  intros A f P Hf. induction k as [|k IH]; intros tp r tp' Htp H; cbn [repeat_draw] in H.
+  - injection H as <- <-. split; [constructor | exact Htp].
+  - destruct (f tp) as [[a tp1]|] eqn:E; [|discriminate].
+    destruct (repeat_draw f k tp1) as [[r1 tp2]|] eqn:E2; [|discriminate]. injection H as <- <-.
+    destruct (Hf _ _ _ Htp E) as [Pa Ht1]. destruct (IH _ _ _ Ht1 E2) as [Pr Ht2].
+    split; [constructor; assumption | exact Ht2].
+Qed.
+
+Lemma gcd_list_divides : forall l a, In a l -> (gcd_list l | a).
+Proof.
+  induction l as [|b l IH]; intros a H; [destruct H|]. cbn [gcd_list fold_right]. destruct H as [-> | H].
+  - apply Z.gcd_divide_l.
+  - eapply Z.divide_trans; [apply Z.gcd_divide_r | apply IH; exact H].
+Qed.
+
+Lemma gcd_list_nonneg : forall l, 0 <= gcd_list l.
+Proof. destruct l; cbn; [lia | apply Z.gcd_nonneg]. Qed.
+
+Lemma nondecr_div : forall g l p, 0 < g -> nondecr p l -> nondecr (p / g) (map (fun a => a / g) l).
+Proof.
+  intros g. induction l as [|a l IH]; intros p Hg H; [exact I|]. destruct H as [H1 H2].
+  cbn [map nondecr]. split; [apply Z.div_le_mono; lia | apply IH; assumption].
+Qed.
+
+Lemma last_map_div : forall g l, last (map (fun a => a / g) l) 0 = last l 0 / g.
+Proof.
+  intros g. induction l as [|a l IH]; [cbn; destruct g; reflexivity|]. destruct l as [|b l]; [reflexivity|].
+  change (last (map (fun a0 => a0 / g) (a :: b :: l)) 0) with (last (map (fun a0 => a0 / g) (b :: l)) 0).
+  rewrite IH. reflexivity.
+Qed.
+
+Lemma last_in : forall (l : list Z), l <> [] -> In (last l 0) l.
+Proof.
+  induction l as [|a l IH]; intros H; [congruence|]. destruct l as [|b l]; [left; reflexivity|].
+  right. apply IH. discriminate.
+Qed.
+
+(** choices(population, cum_weights=cum, k): every returned element is a member of the population, for
+    nondecreasing nonnegative integer cumulative weights with positive total *)
+Theorem choices_cum_member : forall fuel pop cum k tp r tp', bits tp ->
+  cum <> [] -> length cum = length pop -> nondecr 0 cum -> 0 < last cum 0 ->
+  choices_cum fuel pop cum k tp = Some (r, tp') -> Forall (fun v => In v pop) r.
+Proof.
+  intros fuel pop cum k tp r tp' Htp Hne Hlen Hnd Hlast H. unfold choices_cum in H.
+  set (g := gcd_list cum) in *.
+  assert (Hd : (g | last cum 0)) by (apply gcd_list_divides; apply last_in; exact Hne).
+  assert (Hg : 0 < g).
+  { pose proof (gcd_list_nonneg cum). fold g in H0. destruct (Z.eq_dec g 0) as [E|]; [|lia].
+    destruct Hd as [q Hq]. rewrite E in Hq. lia. }
+  apply (repeat_draw_forall _ (fun v => In v pop)) in H; [tauto | | exact Htp].
+  intros tp0 a tp0' Ht0 Hw.
+  apply (weighted_choice_member _ _ _ _ _ _ Ht0) in Hw; [exact Hw | | | | ].
+  - destruct cum; [congruence | discriminate].
+  - rewrite map_length. exact Hlen.
+  - pose proof (nondecr_div g cum 0 Hg Hnd) as N. rewrite Z.div_0_l in N by lia. exact N.
+  - rewrite last_map_div. destruct Hd as [q Hq]. rewrite Hq, Z.div_mul by lia. nia.
+Qed.
+
+Lemma nondecr_accumulate : forall w acc, Forall (fun a => 0 <= a) w -> nondecr acc (accumulate acc w).
+Proof.
+  induction w as [|a w IH]; intros acc H; [exact I|]. inversion H as [|? ? Ha Hw]; subst.
+  cbn [accumulate nondecr]. split; [lia | apply IH; exact Hw].
+Qed.
+
+Lemma accumulate_length : forall w acc, length (accumulate acc w) = length w.
+Proof. induction w as [|a w IH]; intros acc; cbn; [reflexivity | rewrite IH; reflexivity]. Qed.
+
+(** choices(population, weights=w, k): nonnegative integer weights with positive total *)
+Theorem choices_weights_member : forall fuel pop w k tp r tp', bits tp ->
+  w <> [] -> length w = length pop -> Forall (fun a => 0 <= a) w -> 0 < last (accumulate 0 w) 0 ->
+  choices_weights fuel pop w k tp = Some (r, tp') -> Forall (fun v => In v pop) r.
+Proof.
+  intros fuel pop w k tp r tp' Htp Hne Hlen Hw Hlast H. unfold choices_weights in H.
+  apply (choices_cum_member _ _ _ _ _ _ _ Htp) in H; [exact H | | | | exact Hlast].
+  - destruct w; [congruence | discriminate].
+  - rewrite accumulate_length. exact Hlen.
+  - apply nondecr_accumulate. exact Hw.
 Qed.
 
 (** ** uniformity by counting, bounded (n <= 64): among the tapes holding exactly one pass of k bits, _randbelow
